@@ -474,6 +474,142 @@ def same_path_classes_oracle(chk, sizes, nrandom):
         dc_cache.template_cache = None
 
 
+IMPORTS_R = "From DJC Require Import Lib.Base LRU.Model LRU.Render."
+
+
+def _mut_append(v):
+    v.append("Z")
+    return v
+
+
+def _mut_pop(v):
+    v.pop()
+    return v
+
+
+def _mut_dict(v):
+    v["cnt"] = v.get("cnt", 0) + 1
+    v.setdefault("seen", []).append(len(v))
+    return v
+
+
+def _mut_nested(v):
+    v["l"].append(9)
+    v["k"] = v["k"] + "!"
+    return v
+
+
+def _fmt(v):
+    if isinstance(v, dict):
+        return "{" + ";".join("%s=%s" % (k, _fmt(v[k])) for k in sorted(v)) + "}"
+    if isinstance(v, list):
+        return "n=%d[" % len(v) + ",".join(_fmt(x) for x in v) + "]"
+    return str(v)
+
+
+MUTATORS = {"append": _mut_append, "pop": _mut_pop, "dict": _mut_dict, "nested": _mut_nested}
+# (page source, [(mutating component, the Python value the argument text denotes - None: taken from the context variable)])
+MUT_PAGES = [
+    ('P0:{% component "c18m_append" v=["Home", "About"] / %}', [("append", ["Home", "About"])]),
+    ('P1:{% component "c18m_append" v=["Docs", "Blog", "News"] / %}', [("append", ["Docs", "Blog", "News"])]),
+    ('P2:{% component "c18m_pop" v=[1, 2, 3] / %}', [("pop", [1, 2, 3])]),
+    ('P3:{% component "c18m_dict" v={"a": 1, "b": "x"} / %}', [("dict", {"a": 1, "b": "x"})]),
+    ('P4:{% component "c18m_nested" v={"l": [1, 2], "k": "v"} / %}', [("nested", {"l": [1, 2], "k": "v"})]),
+    ('P5:{% component "c18m_append" v=[1, x] / %}', [("append", [1, "X"])]),                 # a variable inside the literal
+    ('P6:{% component "c18m_append" v=lst / %}', [("append", None)]),                       # no literal at all
+    ('P7:{% component "c18m_append" v=[7] / %}|{% component "c18m_dict" v={"q": 2} / %}', [("append", [7]), ("dict", {"q": 2})]),
+    ('P8:{% component "c18m_append" v=[] / %}', [("append", [])]),
+]
+
+
+def mutable_literal_oracle(chk, sizes, nrandom):
+    """Transparency when the cached Template's tags carry list / dict LITERAL arguments and the receiving component mutates its
+    input in place: every render - whatever was rendered before, whatever the cache size - must print what a fresh compile prints,
+    i.e. the component applied to a NEW value of the literal.  Expected text is computed here from the literal's Python value."""
+    import copy
+    import re
+    import django_components.cache as dc_cache
+    from django.template import Context
+    from django_components import Component, registry
+    from django_components.template import cached_template
+    import djsetup
+    rng = chk.rng
+    names = []
+    for kind, fn in MUTATORS.items():
+        cls = type("C18Mut_%s" % kind, (Component,), {
+            "template": "<b>{{ text }}</b>",
+            "get_context_data": (lambda f: lambda self, v=None: {"text": _fmt(f(v))})(fn),
+            "__module__": "verif_c18_mut"})
+        registry.register("c18m_" + kind, cls)
+        names.append("c18m_" + kind)
+    pages = []
+    for i, (src, calls) in enumerate(MUT_PAGES):
+        pages.append(type("C18MutPage%d" % i, (Component,), {"template": src, "__module__": "verif_c18_mut",
+                                                             "get_context_data": lambda self, **kw: kw}))
+
+    def expected(pi):
+        src, calls = MUT_PAGES[pi]
+        texts = [_fmt(MUTATORS[kind](copy.deepcopy(val) if val is not None else ["L"])) for kind, val in calls]
+        return "P%d:" % pi + "|".join(texts)
+    seqs = []
+    for L in range(1, 5):
+        seqs.extend((list(q), "component") for q in itertools.product([0, 1, 2], repeat=L))
+    for L in range(1, 4):
+        seqs.extend((list(q), "cached_template") for q in itertools.product([3, 4, 7], repeat=L))
+        seqs.extend((list(q), "mixed") for q in itertools.product([0, 1, 8], repeat=L))
+    for _ in range(nrandom):
+        seqs.append(([rng.randrange(len(MUT_PAGES)) for _ in range(rng.randint(2, 10))], rng.choice(["component", "cached_template", "mixed"])))
+    rr_terms, rr_cases = [], []
+    try:
+        for seq, mode in seqs:
+            modes = [mode if mode != "mixed" else rng.choice(["component", "cached_template"]) for _ in seq]
+            for size in sizes:
+                dc_cache.template_cache = None
+                with djsetup.components_settings(template_cache_size=size):
+                    out = []
+                    for pi, m in zip(seq, modes):
+                        ctx = {"x": "X", "lst": ["L"]}
+                        try:
+                            if m == "component":
+                                out.append(pages[pi].render(kwargs=ctx, render_dependencies=False))
+                            else:
+                                out.append(cached_template(MUT_PAGES[pi][0]).render(Context(ctx)))
+                        except Exception as e:  # noqa
+                            out.append("raised %s" % type(e).__name__)
+                    try:
+                        n = len(dc_cache.get_template_cache().cache)
+                    except Exception:  # noqa
+                        n = -1
+                got = [re.sub(r"<!--.*?-->|<b[^>]*>|</b>", "", o) for o in out]
+                exp = [expected(pi) for pi in seq]
+                chk.count(("mutlit", tuple(seq), tuple(modes), size), size > 0 and len(set(seq)) < len(seq), kind="render_mutable_literal_args")
+                if got != exp or n > max(size, 0):
+                    chk.fail("render-mutable-literal-args",
+                             "templates whose tags pass list / dict literals to components that mutate their input in place: a render under "
+                             "template_cache_size=%r differs from compiling afresh (the literal must denote a new value on every render)" % size,
+                             {"kind": "mutlit", "pages": [MUT_PAGES[pi][0] for pi in sorted(set(seq))], "seq": seq, "via": modes, "size": size,
+                              "got": got, "expected": exp, "cache_len": n})
+                # model of "render through the cache" (LRU/Render.v) for the pages that append to a literal list
+                if all(pi in (0, 1, 8) for pi in seq):
+                    obs = []
+                    for g in got:
+                        mm = re.search(r"n=(\d+)\[", g)
+                        obs.append(int(mm.group(1)) if mm else 999)
+                    bases = [2, 3, 0, 0, 0, 0, 0, 0, 0]
+                    rr_terms.append("(%s, %s, %s, %s)" % (copt(size, cZ), clist([cN(b) for b in bases]),
+                                                          clist(["RRender %s tt" % cN(pi) for pi in seq]), clist([copt(o, cN) for o in obs])))
+                    rr_cases.append((size, seq, modes, got))
+        bad = U.coq_eval_cases("C18", "rr", IMPORTS_R, "rr_case", "check_rr", rr_terms, shard=1500)
+        for i in bad[:20]:
+            chk.disagree("render-through-the-cache model (LRU/Render.v, immutable nodes) != implementation: number of items the component printed",
+                         {"kind": "mutlit", "size": rr_cases[i][0], "seq": rr_cases[i][1], "via": rr_cases[i][2], "got": rr_cases[i][3]})
+        chk.extra["render_model_cases"] = len(rr_terms)
+    finally:
+        for nm in names:
+            registry.unregister(nm)
+        dc_cache.template_cache = None
+
+
 def run_corpus(chk):
     """Minimised witnesses (incl. defects already fixed in /repo) - direct oracles only."""
     import glob
@@ -585,6 +721,7 @@ def run(tier, seed):
     # ---- 3. component renders ----
     component_render_oracle(chk, [0, 1, 2, 128], 300 if thorough else 60)
     same_path_classes_oracle(chk, [0, 1, 2, 128], 400 if thorough else 100)
+    mutable_literal_oracle(chk, [0, 1, 2, 3, 128], 600 if thorough else 150)
     phase("render")
     chk.assumptions = [
         "Template(...) is deterministic in (class, source, engine) apart from object identity (Django)",
@@ -601,11 +738,12 @@ def run(tier, seed):
              "{implicit default engine, default engine object, Engine instance E1, Engine instance E2} x one source (+random) x sizes "
              "{None,0,1,2,3}; component renders over 6 inline templates x sizes {0,1,2,128} with the same template strings compiled for other "
              "engines in between; distinct component classes with the SAME module + qualname and different static templates (inline and "
-             "template_file) in every order up to 4 renders (+random) x the same sizes. Non-trivial = at least one hit and one eviction (LRU), identity reuse with more keys than capacity "
+             "template_file) in every order up to 4 renders (+random) x the same sizes; pages whose tags pass list / dict LITERALS to components that mutate their input in place, every order "
+             "up to 4 renders (+random, via components and via cached_template) x sizes {0,1,2,3,128}, expected text computed from the literal. Non-trivial = at least one hit and one eviction (LRU), identity reuse with more keys than capacity "
              "(cached_template), more distinct templates than the cache holds (render). Distinct = distinct (config, sequence)."
              % (5 if thorough else 4, 60 if thorough else 40, 6 if thorough else 5, 5 if thorough else 4),
-        explanation="19 theorems of Props/C18.v re-checked by coqc (10 about the list-level model, 9 about the pointer-level model incl. the "
-                    "refinement `lru_refines`); both models evaluated by vm_compute inside Coq on every generated case and compared with the "
+        explanation="20 theorems of Props/C18.v re-checked by coqc (10 about the list-level model, 9 about the pointer-level model incl. the "
+                    "refinement `lru_refines`, 1 about rendering through the cache); both models evaluated by vm_compute inside Coq on every generated case and compared with the "
                     "observed LRUCache / cached_template behaviour and with the real object's pointer structure; independent OrderedDict "
                     "reference (step by step), recency order read through the public API, and fresh-compile render comparison act as direct "
                     "property oracles.",
@@ -631,6 +769,12 @@ def replay(path):
         bad = U.coq_eval_cases("C18", "replay", IMPORTS_H, "heap_case", "check_heap", [heap_case_term(case["maxsize"], ops, im)])
         print("heap model agrees with the real object:", not bad)
         return 1 if (bad or (im["outs"], im["present"], im["order"]) != (ref["outs"], ref["present"], ref["order"])) else 0
+    if kind == "mutlit":
+        chk = C.Check("C18", "quick", 0)
+        mutable_literal_oracle(chk, [case["size"]], 0)
+        bad = [f[2] for f in chk.failures]
+        print("mutable literal arguments, exhaustive orders under size %r: %d failing sequences; first: %s" % (case["size"], len(bad), bad[:1]))
+        return 1 if bad else 0
     if kind == "twins":
         chk = C.Check("C18", "quick", 0)
         same_path_classes_oracle(chk, [case["size"]], 0)
